@@ -166,7 +166,7 @@ def par_lines(argv, lines, nproc, env, timeout=14400):
     from concurrent.futures import ThreadPoolExecutor
     if not lines:
         return []
-    nproc = max(1, min(nproc, (len(lines) + 11) // 12))
+    nproc = max(1, min(nproc, (len(lines) + 5) // 6))
     size = (len(lines) + nproc - 1) // nproc
     chunks = [lines[i:i + size] for i in range(0, len(lines), size)]
 
@@ -203,6 +203,19 @@ def noaslr_prefix():
             except (OSError, subprocess.SubprocessError):
                 pass
     return _NOASLR
+
+
+def run_many(jobs, specpath):
+    """jobs: {key: (lines, hashseed, det)} run concurrently, sharing the NPROC worker budget"""
+    from concurrent.futures import ThreadPoolExecutor
+    jobs = {k: v for k, v in jobs.items() if v[0]}
+    if not jobs:
+        return {}
+    total = sum(len(v[0]) for v in jobs.values())
+    share = {k: max(1, round(NPROC * len(v[0]) / total)) for k, v in jobs.items()}
+    with ThreadPoolExecutor(len(jobs)) as ex:
+        futs = {k: ex.submit(run_impl, v[0], specpath, v[1], share[k], v[2]) for k, v in jobs.items()}
+        return {k: f.result() for k, f in futs.items()}
 
 
 def run_impl(lines, specpath, hashseed='0', nproc=NPROC, det=0):
@@ -538,13 +551,21 @@ def run(tier):
     probe = sorted(rnd.sample(cand, nprobe)) if cand else []
     need_sorted = sorted(need_d)
     t0 = time.time()
-    # attribution of the in-process differences: seed 0 only
-    dn = dict(zip(need_sorted, run_impl([lines[i] for i in need_sorted], specpath, hashseed='0', det=1))) \
-        if need_sorted else {}
-    # hash-seed probe: the SAME line list (hence the same worker histories) under every seed
-    d_runs = {}
+    # attribution of the in-process differences: seed 0 only; hash-seed probe: the SAME line list (hence the same
+    # worker histories, the chunking depends on the list only) under every seed
+    jobs = {'need': ([lines[i] for i in need_sorted], '0', 1)}
     for hs in ('0',) + seeds_probe:
-        d_runs[hs] = dict(zip(probe, run_impl([lines[i] for i in probe], specpath, hashseed=hs, det=1))) if probe else {}
+        jobs['p' + hs] = ([lines[i] for i in probe], hs, 1)
+    share_probe = max(1, NPROC // (len(seeds_probe) + 2))
+    res = {}
+    if need_sorted:
+        res['need'] = None
+    from concurrent.futures import ThreadPoolExecutor
+    with ThreadPoolExecutor(len(jobs)) as ex:
+        futs = {k: ex.submit(run_impl, v[0], specpath, v[1], share_probe, v[2]) for k, v in jobs.items() if v[0]}
+        res = {k: f.result() for k, f in futs.items()}
+    dn = dict(zip(need_sorted, res.get('need', [])))
+    d_runs = {hs: dict(zip(probe, res.get('p' + hs, []))) for hs in ('0',) + seeds_probe}
     d0 = dict(d_runs['0'])
     d0.update(dn)
     d_idx = sorted(set(need_d) | set(probe))
@@ -567,10 +588,14 @@ def run(tier):
     for hs in seeds_probe:
         unsettled.update(cross[hs])
     f_idx = sorted(unsettled)
-    f_runs = {}
+    fjobs = {}
+    fsubs = {}
     for hs in ('0',) + seeds_probe:
         sub = [i for i in f_idx if hs == '0' or i in set(cross[hs]) or i in set(need_d)]
-        f_runs[hs] = dict(zip(sub, run_impl([lines[i] for i in sub], specpath, hashseed=hs, det=2))) if sub else {}
+        fsubs[hs] = sub
+        fjobs[hs] = ([lines[i] for i in sub], hs, 2)
+    fres = run_many(fjobs, specpath)
+    f_runs = {hs: dict(zip(fsubs[hs], fres.get(hs, []))) for hs in ('0',) + seeds_probe}
     t_probe = time.time() - t0
 
     def settled(i):
